@@ -37,6 +37,7 @@ func runC07(c *Ctx) {
 	c07WeekKey(c, m)
 	c07CacheScope(c, m)
 	c07LocalComplete(c, m)
+	c06InvalidRecordRejects(c, m, "C07.only-expired")
 }
 
 // c07LocalComplete: nothing is removed from the aggregate once it is folded — the local report
